@@ -173,6 +173,7 @@ class CommunityListGenerator(PartialGenerator, ABC):
         return r"""
         ip community-list
         ip extcommunity-list
+        ip large-community-list
         """
 
     def _arista_community_list(
